@@ -306,6 +306,10 @@ def validate_kernel(k, name, sym, ctx, outcomes):
 def parse_model(out, inputs):
     vals = {}
     for n, t in inputs.items():
+        mb = re.search(r"\(" + re.escape(t) + r"\s+(true|false)\)", out)
+        if mb:
+            vals[n] = mb.group(1) == "true"
+            continue
         m = re.search(r"\(" + re.escape(t) + r"\s+(\(- (\d+)\)|\d+)\)", out)
         if m:
             vals[n] = int(m.group(2)) * -1 if m.group(2) else int(m.group(1))
@@ -362,7 +366,7 @@ def run_property(prop, tier="quick"):
     fields = kernels.struct_fields("/repo/src")
     ks = [k for k in kernels.all_kernels() if k.prop == prop or (prop == "C02" and k.prop == "C09" and k.kid.startswith("col"))]
     results = []
-    if not ks and prop not in STATE_PROPS:
+    if not ks and prop not in STATE_PROPS and prop != "C10":
         return results, {"kernels": 0}
     mir = {True: dump_mir(False), False: dump_mir(True)}  # key: wrapping?
     fns = {w: mirsmt.parse_mir(t) for w, t in mir.items()}
@@ -376,6 +380,9 @@ def run_property(prop, tier="quick"):
     from concurrent.futures import ThreadPoolExecutor
     with ThreadPoolExecutor(max_workers=3) as pool:
         results.extend(pool.map(one, [(k, w) for k in ks for w in (False, True)]))
+    if prop == "C10":
+        for wrapping in (False, True):
+            results.extend(run_flatten_kernels(fns[wrapping], wrapping, fields))
     if prop in STATE_PROPS:
         want, only = STATE_PROPS[prop]
         for wrapping in (False, True):
@@ -584,6 +591,288 @@ def run_state_kernels(fns, wrapping, fields, want):
                                    "post_state": {"num_cols": C[:80], "num_rows": R[:80], "len": L[:80]}, "solvers": verdicts, "replay": rep})
             else:
                 res["inconclusive"].append(f"{name}: solver verdicts {verdicts} on a {cls} exit")
+        out.append(res)
+    return out
+
+
+
+# ============================================================================================
+# FlattenExact (cells / cells_mut) kernels, C10
+#
+# FlattenExact<I> is generic; its MIR is executed against an ABSTRACT inner iterator: `iter` is a row
+# cursor (P = logical index of the first cell of the first remaining middle row, N rows, C cells per
+# row), `frontiter`/`backiter` are optional cell cursors [lo, hi). "Logical index" = position in the
+# row-major cell sequence of the window. The inner iterators behave ideally (that is what the C08
+# kernels establish for Rows/RowsMut and what std guarantees for slice::Iter); the kernels decide that
+# FlattenExact's own bookkeeping (the nth / nth_back arithmetic, the front/back hand-over) is the
+# ideal cell sequence from ANY state satisfying the invariant below - one step of an induction.
+
+def deep(x):
+    for _ in range(4):
+        y = mirsmt.val_of(x)
+        if y is x:
+            break
+        x = y
+    return x
+
+
+def fe_models():
+    from mirsmt import m_ret
+    ROWS = r"^<I as "
+    CELL = r"^<(&mut )?<<I as Iterator>::Item as IntoIterator>::IntoIter as "
+
+    def opt(some, payload):
+        return Opt(some, payload)
+
+    def rows_len(ex, st, callee, args, ty):
+        return m_ret(st, Int(deep(args[0]).fs[1].t))
+
+    def rows_cols(ex, st, callee, args, ty):
+        return m_ret(st, Int(deep(args[0]).fs[2].t))
+
+    def row_val(lo, hi):
+        t = Tup([Int(lo), Int(hi)])
+        t.sname = "AbsRow"
+        return t
+
+    def rows_step(kind):
+        def h(ex, st, callee, args, ty):
+            r = deep(args[0])
+            P, N, C = r.fs[0].t, r.fs[1].t, r.fs[2].t
+            if kind in ("next", "next_back"):
+                k = "0"
+            else:
+                k = args[1].t
+            some = f"(< {k} {N})"
+            if kind in ("next", "nth"):
+                lo = f"(+ {P} (* {k} {C}))"
+                newP = f"(ite {some} (+ {P} (* (+ {k} 1) {C})) (+ {P} (* {N} {C})))"
+            else:
+                lo = f"(+ {P} (* (- {N} 1 {k}) {C}))"
+                newP = f"(ite {some} {P} (+ {P} (* {N} {C})))"
+                if kind in ("next_back", "nth_back"):
+                    # rows are taken from the back: P stays while rows remain; when exhausted the cursor is empty,
+                    # and (for the invariant) sits at the position where the back row starts
+                    newP = f"(ite {some} {P} {P})"
+            hi = f"(+ {lo} {C})"
+            newN = f"(ite {some} (- {N} {k} 1) 0)"
+            if kind in ("next_back", "nth_back"):
+                # exhausting from the back leaves the cursor at P with 0 rows: the back row then starts at P
+                pass
+            r.fs[0] = Int(newP)
+            r.fs[1] = Int(newN)
+            return m_ret(st, opt(some, row_val(lo, hi)))
+        return h
+
+    def into_iter(ex, st, callee, args, ty):
+        r = deep(args[0])
+        t = Tup([Int(r.fs[0].t), Int(r.fs[1].t)])
+        t.sname = "AbsIter"
+        return m_ret(st, t)
+
+    def cell_len(ex, st, callee, args, ty):
+        c = deep(args[0])
+        return m_ret(st, Int(f"(- {c.fs[1].t} {c.fs[0].t})"))
+
+    def cell_step(kind):
+        def h(ex, st, callee, args, ty):
+            c = deep(args[0])
+            lo, hi = c.fs[0].t, c.fs[1].t
+            k = "0" if kind in ("next", "next_back") else args[1].t
+            some = f"(< {k} (- {hi} {lo}))"
+            if kind in ("next", "nth"):
+                item = f"(+ {lo} {k})"
+                c.fs[0] = Int(f"(ite {some} (+ {lo} {k} 1) {hi})")
+            else:
+                item = f"(- {hi} 1 {k})"
+                c.fs[1] = Int(f"(ite {some} (- {hi} {k} 1) {lo})")
+            return m_ret(st, opt(some, Int(item)))
+        return h
+
+    def umin(ex, st, callee, args, ty):
+        a, b = args
+        return m_ret(st, Int(f"(ite (<= {a.t} {b.t}) {a.t} {b.t})"))
+
+    def as_mut(ex, st, callee, args, ty):
+        o = deep(args[0])
+        return m_ret(st, Opt(o.some, Ref(Box_(o.payload))))
+
+    def branch(ex, st, callee, args, ty):
+        o = args[0]
+        r = Opt(o.some, o.payload)
+        r.cf = True
+        return m_ret(st, r)
+
+    def from_residual(ex, st, callee, args, ty):
+        return m_ret(st, Opt("false", Opaque("none")))
+
+    def map_or_len(ex, st, callee, args, ty):
+        o, default = deep(args[0]), args[1]
+        p = deep(o.payload)
+        return m_ret(st, Int(f"(ite {o.some} (- {p.fs[1].t} {p.fs[0].t}) {default.t})"))
+
+    def as_ref(ex, st, callee, args, ty):
+        o = deep(args[0])
+        return m_ret(st, Opt(o.some, Ref(Box_(o.payload))))
+
+    return [
+        (ROWS + r"ExactSizeIterator>::len$", rows_len),
+        (ROWS + r"(iter::)?TooDeeIterator>::num_cols$", rows_cols),
+        (ROWS + r"Iterator>::next$", rows_step("next")),
+        (ROWS + r"Iterator>::nth$", rows_step("nth")),
+        (ROWS + r"DoubleEndedIterator>::next_back$", rows_step("next_back")),
+        (ROWS + r"DoubleEndedIterator>::nth_back$", rows_step("nth_back")),
+        (r"^<<I as Iterator>::Item as IntoIterator>::into_iter$", into_iter),
+        (CELL + r"ExactSizeIterator>::len$", cell_len),
+        (CELL + r"Iterator>::next$", cell_step("next")),
+        (CELL + r"Iterator>::nth$", cell_step("nth")),
+        (CELL + r"DoubleEndedIterator>::next_back$", cell_step("next_back")),
+        (CELL + r"DoubleEndedIterator>::nth_back$", cell_step("nth_back")),
+        (r"^<usize as Ord>::min$", umin),
+        (r"^Option::<.*>::as_mut$", as_mut),
+        (r"^Option::<.*>::as_ref$", as_ref),
+        (r"^<Option<.*> as Try>::branch$", branch),
+        (r"as FromResidual<Option<Infallible>>>::from_residual$", from_residual),
+        (r"^Option::<.*>::map_or::<usize,", map_or_len),
+    ]
+
+
+class ExecF(ExecB):
+    unroll = 3
+
+
+def run_flatten_kernels(fns, wrapping, fields):
+    """-> list of kernel results for FlattenExact::{next, next_back, nth, nth_back, size_hint}."""
+    out = []
+    order = fields.get("FlattenExact")
+    if not order:
+        return [{"kernel": "flatten", "semantics": "", "what": "", "paths": 0, "queries": 0, "unsat": 0, "sat": [], "solver_s": 0.0,
+                 "inconclusive": ["struct FlattenExact not found in the source"]}]
+    for meth in ("next", "next_back", "nth", "nth_back", "size_hint"):
+        names = [n for n, f in fns.items() if n.startswith("flattenexact::<impl at") and n.endswith("::" + meth) and f.args and "FlattenExact<I>" in f.args[0][1]]
+        res = {"kernel": "flatten_" + meth, "property": "C10", "functions": names, "semantics": "wrapping (overflow-checks=off)" if wrapping else "checked (overflow-checks=on)",
+               "what": f"FlattenExact::{meth} from an arbitrary front/middle/back state over ideal inner iterators: ideal answer and ideal remaining state (one step of the induction)",
+               "paths": 0, "queries": 0, "unsat": 0, "sat": [], "inconclusive": [], "solver_s": 0.0, "cut_paths": 0}
+        if len(names) != 1:
+            res["inconclusive"].append(f"expected one function, found {names}")
+            out.append(res)
+            continue
+        name = names[0]
+        sym = mirsmt.Sym()
+        ctx = kernels.Ctx(sym, fields)
+        P, N, C = ctx.int("P"), ctx.int("N"), ctx.int("C")
+        flo, fhi, blo, bhi = ctx.int("flo"), ctx.int("fhi"), ctx.int("blo"), ctx.int("bhi")
+        fs_, bs_ = sym.bool("fsome"), sym.bool("bsome")
+        ctx.inputs["fsome"], ctx.inputs["bsome"] = fs_, bs_
+        probe = ctx.int("probe")
+        MAXV = mirsmt.U64 - 1
+
+        def describe(fsome, flo, fhi, P, N, C, bsome, blo, bhi):
+            """-> (invariant, count of remaining cells, item(k) as an SMT term builder)"""
+            mid_end = f"(+ {P} (* {N} {C}))"
+            inv = (f"(and (=> (= {C} 0) (and (= {N} 0) (not {fsome}) (not {bsome}))) "
+                   f"(=> {fsome} (and (<= {flo} {fhi}) (<= {fhi} {P}) (=> (< {fhi} {P}) (= {N} 0)) (<= (- {P} {flo}) {C}))) "
+                   f"(=> {bsome} (and (<= {blo} {bhi}) (>= {blo} {mid_end}) (=> (> {blo} {mid_end}) (= {N} 0)) (<= (- {bhi} {mid_end}) {C}))) "
+                   f"(<= (+ {mid_end} {C}) {MAXV}))")
+            f = f"(ite {fsome} (- {fhi} {flo}) 0)"
+            m = f"(* {N} {C})"
+            b = f"(ite {bsome} (- {bhi} {blo}) 0)"
+            T = f"(+ {f} {m} {b})"
+
+            def item(k):
+                return f"(ite (< {k} {f}) (+ {flo} {k}) (ite (< {k} (+ {f} {m})) (+ {P} (- {k} {f})) (+ {blo} (- {k} {f} {m}))))"
+            return inv, T, item
+
+        inv0, T, item0 = describe(fs_, flo, fhi, P, N, C, bs_, blo, bhi)
+        ctx.assume.append(inv0)
+        rows = Tup([Int(P), Int(N), Int(C)])
+        rows.sname = "AbsRows"
+        fit = Tup([Int(flo), Int(fhi)])
+        bit = Tup([Int(blo), Int(bhi)])
+        vals = {"iter": rows, "frontiter": Opt(fs_, fit), "backiter": Opt(bs_, bit)}
+        recv_t = Tup([vals[f] for f in order])
+        recv = Ref(Box_(recv_t))
+        args = [recv]
+        n = None
+        if meth in ("nth", "nth_back"):
+            n = ctx.int("n")
+            args.append(Int(n))
+        try:
+            ex = ExecF(fns, wrapping, fe_models() + mirsmt.STD_MODELS)
+            st = mirsmt.State(sym, wrapping)
+            st.roots = {"self": recv}
+            outcomes = ex.run(name, st, args)
+        except Unsupported as e:
+            res["inconclusive"].append(f"{name}: outside the MIR subset: {e}")
+            out.append(res)
+            continue
+        jobs = []
+        for o in outcomes:
+            res["paths"] += 1
+            if o.kind == "cut":
+                res["cut_paths"] += 1
+                jobs.append((o, ctx.assume + o.state.pc, "cut"))
+                continue
+            if o.kind != "return":
+                jobs.append((o, ctx.assume + o.state.pc, "nopanic"))
+                continue
+            t = o.state.roots["self"].cell.v
+            r2 = t.fs[order.index("iter")]
+            f2 = t.fs[order.index("frontiter")]
+            b2 = t.fs[order.index("backiter")]
+            if not (isinstance(f2, Opt) and isinstance(b2, Opt) and isinstance(r2, Tup)):
+                res["inconclusive"].append(f"{name}: state lost its shape on a path")
+                continue
+            f2p, b2p = deep(f2.payload), deep(b2.payload)
+            f2lo, f2hi = (f2p.fs[0].t, f2p.fs[1].t) if isinstance(f2p, Tup) else ("0", "0")
+            b2lo, b2hi = (b2p.fs[0].t, b2p.fs[1].t) if isinstance(b2p, Tup) else ("0", "0")
+            inv2, T2, item2 = describe(f2.some, f2lo, f2hi, r2.fs[0].t, r2.fs[1].t, r2.fs[2].t, b2.some, b2lo, b2hi)
+            same_c = f"(= {r2.fs[2].t} {C})"
+            v = o.value
+            if meth == "size_hint":
+                post = f"(and (= {v.fs[0].t} {T}) {v.fs[1].some} (= {v.fs[1].payload.t} {T}))"
+            else:
+                k = "0" if meth in ("next", "next_back") else n
+                front = meth in ("next", "nth")
+                want = item0(k) if front else item0(f"(- {T} 1 {k})")
+                shift = f"(+ {probe} {k} 1)" if front else probe
+                pv = v.payload.t if isinstance(v.payload, Int) else None
+                ok_some = (f"(and {v.some} (= {pv} {want}) (= {T2} (- {T} {k} 1)) {inv2} {same_c} "
+                           f"(=> (< {probe} {T2}) (= {item2(probe)} {item0(shift)})))") if pv is not None else "false"
+                ok_none = f"(and (not {v.some}) (= {T2} 0) {inv2} {same_c})"
+                post = f"(ite (< {k} {T}) {ok_some} {ok_none})"
+            jobs.append((o, ctx.assume + o.state.pc + [f"(not {post})"], "post"))
+
+        def work(job):
+            o, base, what = job
+            names_in = list(ctx.inputs.values())
+            return job, mirsmt.decide(mirsmt.smt_script(sym, base), mirsmt.smt_script(sym, base, get_model=names_in))
+
+        from concurrent.futures import ThreadPoolExecutor
+        with ThreadPoolExecutor(max_workers=6) as pool:
+            done = list(pool.map(work, jobs))
+        for (o, base, what), (verdict, verdicts, dt, model) in done:
+            res["queries"] += 1
+            res["solver_s"] += dt
+            if verdict in ("unsat", "unsat1"):
+                res["unsat"] += 1
+            elif verdict == "sat":
+                wit = parse_model(model, ctx.inputs)
+                if what != "cut":
+                    small = [f"(<= {ctx.inputs['C']} 64)", f"(<= {ctx.inputs['N']} 16)", f"(= {ctx.inputs['fhi']} {ctx.inputs['P']})",
+                             f"(= {ctx.inputs['blo']} (+ {ctx.inputs['P']} (* {ctx.inputs['N']} {ctx.inputs['C']})))"]
+                    rs, outm = mirsmt.solve(mirsmt.smt_script(sym, base + small, get_model=list(ctx.inputs.values())), "z3")
+                    if rs == "sat":
+                        wit = parse_model(outm, ctx.inputs)
+                if what == "cut":
+                    res["inconclusive"].append(f"{name}: a path needs more than {ExecF.unroll} loop iterations (feasible: {wit})")
+                else:
+                    res["sat"].append({"function": name, "path_kind": o.kind if what == "post" else "panic/unwind on a valid state", "msg": o.msg, "witness": wit,
+                                       "solvers": verdicts, "replay": ("b_flatten_%d" % ["next", "next_back", "nth", "nth_back", "size_hint"].index(meth),
+                                                                         [wit.get("C", 1), wit.get("N", 0), (wit.get("fhi", 0) - wit.get("flo", 0)) if wit.get("fsome") else 0,
+                                                                          (wit.get("bhi", 0) - wit.get("blo", 0)) if wit.get("bsome") else 0, wit.get("n", 0)])})
+            else:
+                res["inconclusive"].append(f"{name}: solver verdicts {verdicts} on a {o.kind} path ({what})")
         out.append(res)
     return out
 
